@@ -51,7 +51,7 @@ Proof. exact op_kind_ok. Qed.
 
 (* Statements (B.3.2) and expressions with calls (B.3.1), model of Model/StParser.v on the real tokens: every well-formed
    spelling of a statement list -- assignments, function-block calls with positional / named / output parameters,
-   IF / ELSIF / ELSE, FOR with or without BY, WHILE, REPEAT, EXIT, RETURN, empty statements, nested to any depth, expressions over all
+   IF / ELSIF / ELSE, CASE (integer, subrange and name selectors, ELSE), FOR with or without BY, WHILE, REPEAT, EXIT, RETURN, empty statements, nested to any depth, expressions over all
    operators with calls, signed constants and parentheses, any trivia at any slot -- is parsed to exactly the list it
    denotes, leaving exactly the rest.  The fuel bound is the size of the spelled tree. *)
 Theorem C01_statements_faithful : forall (l : StStmtProofs.sl token) rest L,
